@@ -8,7 +8,7 @@ RULES = {
     "G5": order.rule_G5,
     "G6": order.rule_G6,
     "G7": order.rule_G7,
-    "G8": order.rule_G8,
+    "G8": order.rule_G8, "G9": order.rule_G9,
     "D1": effects.rule_D1,
     "D2": effects.rule_D2,
     "D3": effects.rule_D3,
@@ -20,12 +20,12 @@ RULES = {
     "B5": proto.rule_B5,
     "B6": proto.rule_B6,
     "B7": proto.rule_B7,
-    "E1": guard.rule_E1, "E2": cursor.rule_E2, "E3": cursor.rule_E3, "E5": cursor.rule_E5, "E6": cursor.rule_E6,
+    "E1": guard.rule_E1, "E2": cursor.rule_E2, "E3": cursor.rule_E3, "E5": cursor.rule_E5, "E6": cursor.rule_E6, "E7": cursor.rule_E7, "E8": cursor.rule_E8, "E9": cursor.rule_E9, "E10": cursor.rule_E10,
     "A1": coord.rule_A1, "A2": coord.rule_A2, "A3": coord.rule_A3, "A4": coord.rule_A4,
     "A5": coord.rule_A5, "A6": coord.rule_A6, "A7": coord.rule_A7, "A8": coord.rule_A8, "A9": coord.rule_A9, "A10": coord.rule_A10, "A11": coord.rule_A11,
     "F1": tables.rule_F1, "F2": tables.rule_F2, "F3": tables.rule_F3, "F4": tables.rule_F4, "F5": tables.rule_F5,
     "F6": tables.rule_F6, "F7": tables.rule_F7, "F8": tables.rule_F8, "F9": tables.rule_F9, "F10": tables.rule_F10, "F11": tables.rule_F11, "F12": tables.rule_F12, "F13": tables.rule_F13, "F14": tables.rule_F14,
-    "F15": tables.rule_F15, "F16": tables.rule_F16, "F17": tables.rule_F17, "F18": tables.rule_F18, "F19": tables.rule_F19, "F20": tables.rule_F20, "F21": tables.rule_F21, "F22": tables.rule_F22, "F23": tables.rule_F23, "F24": tables.rule_F24, "F25": tables.rule_F25, "F26": tables.rule_F26, "F27": tables.rule_F27, "F28": tables.rule_F28, "F29": tables.rule_F29,
+    "F15": tables.rule_F15, "F16": tables.rule_F16, "F17": tables.rule_F17, "F18": tables.rule_F18, "F19": tables.rule_F19, "F20": tables.rule_F20, "F21": tables.rule_F21, "F22": tables.rule_F22, "F23": tables.rule_F23, "F24": tables.rule_F24, "F25": tables.rule_F25, "F26": tables.rule_F26, "F27": tables.rule_F27, "F28": tables.rule_F28, "F29": tables.rule_F29, "F30": tables.rule_F30,
     "C1": deadline.rule_C1,
     "C2": deadline.rule_C2,
     "C3": deadline.rule_C3,
@@ -71,6 +71,9 @@ CONTROLS = [
     {"name": "F26-offset-bookkeeping", "rule": "F26", "fn": _fires(tables.rule_F26, "f26_bad_offsets")},
     {"name": "A11-side-pattern", "rule": "A11", "fn": _fires(coord.rule_A11, "a11_bad_pattern")},
     {"name": "E6-stale-position", "rule": "E6", "fn": _fires(cursor.rule_E6, "e6_bad_stale_position")},
+    {"name": "G9-dedup-by-first-arg", "rule": "G9", "fn": _fires(order.rule_G9, "g9_bad_dedup", silent_fn="g9_good_dedup")},
+    {"name": "E7-position-reused", "rule": "E7", "fn": _fires(cursor.rule_E7, "e7_bad_position_reused")},
+    {"name": "E8-carried-position", "rule": "E8", "fn": _fires(cursor.rule_E8, "e8_bad_carried_position", silent_fn="e8_good_carried_position")},
     {"name": "E5-cursor-base", "rule": "E5", "fn": _fires(cursor.rule_E5, "e5_bad_cursor_base")},
     {"name": "F23-tag-blocks-differ", "rule": "F23", "fn": _fires(tables.rule_F23, "ChangesIter")},
 ]
